@@ -623,7 +623,8 @@ func c02GenHdrs(r *gen.Rand, prefix string, bin bool) []c02Hdr {
 	var out []c02Hdr
 	used := map[string]bool{}
 	for i := 0; i < n; i++ {
-		name := fmt.Sprintf("%s-%s%d", prefix, gen.Pick(r, []string{"a", "bb", "Key", "LONG-name", "q"}), r.Intn(3))
+		// names over the whole alphabet every peer accepts in a metadata key (letters, digits, '-', '_', '.')
+		name := fmt.Sprintf("%s-%s%d", prefix, gen.Pick(r, []string{"a", "bb", "Key", "LONG-name", "q", "snake_case", "dot.ted", "_u", "m.x_Y-z"}), r.Intn(3))
 		if r.Chance(1, 3) {
 			name = strings.ToUpper(name[:1]) + name[1:]
 		}
@@ -641,7 +642,10 @@ func c02GenHdrs(r *gen.Rand, prefix string, bin bool) []c02Hdr {
 			if isBin {
 				vals[k] = gen.Pick(r, []string{"AAEC", "/w", "aGVsbG8", "AA"})
 			} else {
-				vals[k] = gen.Pick(r, []string{"v1", "Value2", "a b", "x;y=z", "100%", "trailing", "~tilde!", "1"})
+				// plain values, and list-shaped ones: elements joined by commas with or without blanks,
+				// empty elements at the end, in the middle, at the start, a blank element
+				vals[k] = gen.Pick(r, []string{"v1", "Value2", "a b", "x;y=z", "100%", "trailing", "~tilde!", "1",
+					"one,two", "one, two", "one,two,", "a,,b", "alpha, ,beta", ",lead", "k=v, k2=\"q\"", ",", "a ,b"})
 			}
 		}
 		out = append(out, c02Hdr{N: name, V: vals})
